@@ -191,6 +191,9 @@ pub struct Monitor {
     pub stat_drop_handler_submit: u32,
     pub stat_nonadvancing_run_with_work: u32,
     pub stat_idle_in_advancing_run: u32,
+    /// actor values dropped inside Stakker::drop because the last reference (a queued closure)
+    /// was discarded there: the actor is freed without ever being terminated
+    pub stat_freed_in_stakker_drop: u32,
     pub stat_max_drop_gen: u32,
 }
 
@@ -237,6 +240,7 @@ impl Monitor {
             stat_drop_handler_submit: 0,
             stat_nonadvancing_run_with_work: 0,
             stat_idle_in_advancing_run: 0,
+            stat_freed_in_stakker_drop: 0,
             stat_max_drop_gen: 0,
         }
     }
@@ -1126,6 +1130,9 @@ impl Monitor {
         self.actors[a as usize].value_dropped = true;
         if (self.dropping || self.gone) && self.pterm.is_none() {
             // last reference went away during/after Stakker drop
+            if self.dropping {
+                self.stat_freed_in_stakker_drop += 1;
+            }
             return Ok(());
         }
         self.explain_term(a, &what)?;
